@@ -218,14 +218,26 @@ def run(res, replay=None):
                 toks = obs.split()
                 tag = toks[0]
                 parts = tag.split(":")
-                pkg = parts[1] if len(parts) > 1 and parts[0] in ("R", "RR", "P", "A", "AP", "AF", "AC", "B") else (toks[1] if len(toks) > 1 else "?")
+                pkg = parts[1] if len(parts) > 1 and parts[0] in ("R", "RR", "P", "PH", "A", "AP", "AF", "AC", "B") else (toks[1] if len(toks) > 1 else "?")
                 rep = {"dbc": texts.get(pkg, ""), "observation": obs[:4000], "detail": detail[:4000]}
                 if parts[0] in ("R", "RR") and len(parts) >= 5:
                     rep.update({"package": pkg, "message_index": int(parts[2], 16), "payload": parts[3], "renderer": parts[4],
                                 "how": ("fresh message" if parts[0] == "R" else "a message instance that was rendered before in another state") +
                                        ", Reset(), UnmarshalFrame({ID, Length, IsExtended of the message, Data: payload}), then the renderer"})
-                if parts[0] in ("P", "AP") and len(parts) >= 4:
+                if parts[0] in ("P", "AP", "PH") and len(parts) >= 4:
                     rep.update({"package": pkg, "url_path": _hex_text(parts[2]), "entries(wrapper:message index:payload)": parts[3]})
+                if parts[0] in ("P", "PH") and len(parts) >= 5:
+                    # the entries contain ':' themselves: P:<pkg>:<path>:<entries>:body, PH:<pkg>:<path>:<entries>:<request>[@step]:<what>
+                    rest = tag.split(":", 3)[3].rsplit(":", 2 if parts[0] == "PH" else 1)
+                    rep["entries(wrapper:message index:payload)"] = rest[0]
+                if parts[0] == "PH" and len(parts) >= 5:
+                    rep.update({"request_headers[@history.step]": rest[1],
+                                "how": "ONE []generated.Message slice (the entries, in this order; rn/tn0/tn1 = wrappers with a real recent "
+                                       "Receive/TransmitTime) is served by candebug.ServeMessagesHTTP for a sequence of GET requests: every "
+                                       "message by name under /debug/, /debug/, two single ones, /; between requests one message gets a new "
+                                       "frame (Reset + UnmarshalFrame, time = now); ims = If-Modified-Since (previous Last-Modified, else now), "
+                                       "inm = If-None-Match (previous ETag), range = Range: bytes=0-10, ifrange = If-Range; the entries shown "
+                                       "carry the payloads current at this step"})
                 if parts[0] in ("A", "AC", "B") and len(parts) >= 6:
                     rep.update({"package": pkg, "message_index": int(parts[2], 16), "payload": parts[3], "signal_index": parts[4],
                                 "renderer": parts[5],
@@ -240,7 +252,7 @@ def run(res, replay=None):
                     if eq and k in ("copy", "now", "prefix_after", "results"):
                         rep[{"copy": "text_when_returned", "now": "text_held_at_the_end", "prefix_after": "caller_prefix_after_the_call",
                              "results": "distinct_texts_seen"}[k]] = ", ".join(_hex_text(x) for x in v.split(","))
-                    elif eq and k in ("later", "calls", "spare", "before", "after"):
+                    elif eq and k in ("later", "calls", "spare", "before", "after", "step", "request", "status"):
                         rep[k] = v
                     elif eq and k == "prefix":
                         rep["prefix_hex"] = v
@@ -256,6 +268,9 @@ def run(res, replay=None):
                     if "text_when_returned" in rep:
                         res.violation("%s: %s %s returned=%r now=%r" % (what, tag[:120], detail[:160], rep["text_when_returned"][:200],
                                                                          rep.get("text_held_at_the_end", "")[:200]), rep)
+                    elif kind == "PFAIL" and parts[0] == "PH":
+                        res.violation("%s: %s %s status=%s body=%r" % (what, tag[:160], detail[:220], rep.get("status", "200"),
+                                                                         rep.get("implementation_text", "")[:200]), rep)
                     elif kind == "PFAIL" and ("distinct_texts_seen" in rep or "caller_prefix_after_the_call" in rep or parts[0] == "AF"):
                         res.violation("%s: %s %s %s" % (what, tag[:120], detail[:200],
                                                         rep.get("distinct_texts_seen", rep.get("caller_prefix_after_the_call", ""))[:300]), rep)
@@ -274,7 +289,8 @@ def run(res, replay=None):
             "rule": "one evaluation = one rendered byte string (Marshal, MarshalCompact, MessageString, String(), canjson.Marshal of "
                     "one message state, one candebug response body; A: a retained result of these or of Append*(nil,..), first and "
                     "second rendering of the same value; AC: a distinct result of a concurrent rendering; B/BF: Append* onto a "
-                    "caller's prefix) compared with the model; additionally every A/AP line compares the retained value with the "
+                    "caller's prefix; PH: the response to one request of a request history served from one caller-owned slice, "
+                    "with conditional / range headers, after state changes) compared with the model; additionally every A/AP line compares the retained value with the "
                     "copy taken when it was returned, AF the message's frame before/after, B/BF the caller's prefix after the call; "
                     "distinct_nontrivial = distinct (message, payload) states with at least one signal + distinct (path, served "
                     "list) pages + distinct call-pattern observations, by line hash",
@@ -299,7 +315,11 @@ def run(res, replay=None):
             "the DBC program generator (checks/genprogs.py) emits programs of DESIGN.md 4.3 together with the database they denote",
             "aliasing of returned buffers and writes to a caller's prefix are facts about Go memory: observed (retained values compared at the "
             "end of each package, sequentially + 4 goroutines; race-detector run), not modelled",
-            "debug page: only zero ReceiveTime/TransmitTime (\"never\"); the optional interfaces are provided by wrappers of the "
+            "debug page: the P lines use zero ReceiveTime/TransmitTime (\"never\"); the PH request histories also use real times: the "
+            "time-dependent text '<duration> ago (<clock>)' is checked by the harness (clock of the entry's time, 0 <= duration <= time "
+            "since) and then replaced by 'never' (time.Since is not modelled); the page is a function of the current entries only, so "
+            "every response of a history must be status 200 with the full current page whatever was requested before and whatever "
+            "If-Modified-Since / If-None-Match / Range / If-Range headers the request carries, and the caller's slice must be unchanged; the optional interfaces are provided by wrappers of the "
             "generated message types (the shape of the generated <Node>_Rx_/<Node>_Tx_ types)",
         ]
     finally:
